@@ -45,17 +45,20 @@ Definition push (cap : nat) (l : list nat) (x : nat) : list nat * option nat :=
 (** * State *)
 Inductive item :=
 | IParse (g st : nat)        (* renamed Parse + metadata (Arc<Parse>, hash) *)
-| IBind (g st n : nat)       (* Bind renamed to PGCAT_g when it was buffered; metadata Some((n, Arc<Parse>, hash)) *)
-| IDesc (g st n : nat)
-| IExec
-| IClose (n : nat).
+| IBind (g st n p : nat)     (* Bind (portal p) renamed to PGCAT_g when it was buffered; metadata Some((n, Arc<Parse>, hash)) *)
+| IDesc (g st n : nat)       (* Describe('S', n) *)
+| IDescP (p : nat)           (* Describe('P', p): passed through, metadata None *)
+| IExec (p : nat)            (* Execute of portal p (0 = the unnamed portal) *)
+| IClose (n : nat)           (* Close('S', n) *)
+| IClosePortal (p : nat).    (* Close('P', p): forwarded unchanged; never touches the statement name space *)
 
 Record client := mkClient {
   cmap : list (nat * (nat * nat));   (* prepared_statements: client name -> (PGCAT_g, statement) *)
   cbuf : list item;                  (* extended_protocol_data_buffer *)
   alive : bool }.
 
-Inductive bmsg := BParse (g st : nat) | BBind (g : nat) | BDesc (g : nat) | BExec | BClose (g : nat) | BCloseUnnamed | BSync.
+Inductive bmsg := BParse (g st : nat) | BBind (g p : nat) | BDesc (g : nat) | BDescP (p : nat) | BExec (p : nat)
+                | BClose (g : nat) | BCloseUnnamed | BCloseP (p : nat) | BSync.
 
 Record server := mkServer {
   lru : list nat;                    (* prepared_statement_cache: LruCache<String, ()> *)
@@ -84,13 +87,17 @@ Definition ainsert {B} (k : nat) (v : B) (l : list (nat * B)) := (k, v) :: aremo
 
 (** * The backend (PostgreSQL as seen on the wire; environment model)
     Extended protocol: after an error everything up to the next Sync is skipped. *)
-Inductive reply := R1 | R2 | R3 | RRow (st : nat) | RDescr (st : nat) | RErr | RZ.
+Inductive reply := R1 | R2 | R3 | RRow (st : nat) | RDescr (st : nat) | RDescrP (st : nat) | RErr | RZ.
 
-Record bstate := mkB { b_tab : list (nat * nat); b_portal : option nat; b_skip : bool }.
+(* [b_portal]: the portals of the current (implicit) transaction, portal name -> statement, 0 = the
+   unnamed portal; a second name space next to the statement names of [b_tab].  A Bind to an open
+   portal replaces it (what the mock backend does; PostgreSQL answers 42P03 for a NAMED portal,
+   which the guard excludes). *)
+Record bstate := mkB { b_tab : list (nat * nat); b_portal : list (nat * nat); b_skip : bool }.
 
 Definition bstep (K : cfg) (b : bstate) (m : bmsg) : bstate * list reply :=
   match m with
-  | BSync => (mkB (b_tab b) None false, [RZ])
+  | BSync => (mkB (b_tab b) [] false, [RZ])
   | _ =>
     if b_skip b then (b, []) else
     match m with
@@ -102,9 +109,9 @@ Definition bstep (K : cfg) (b : bstate) (m : bmsg) : bstate * list reply :=
              | None => (mkB ((g, st) :: b_tab b) (b_portal b) false, [R1])
              end
       end
-    | BBind g =>
+    | BBind g p =>
       match alookup g (b_tab b) with
-      | Some st => (mkB (b_tab b) (Some st) false, [R2])
+      | Some st => (mkB (b_tab b) (ainsert p st (b_portal b)) false, [R2])
       | None => (mkB (b_tab b) (b_portal b) true, [RErr])                   (* 26000 does not exist *)
       end
     | BDesc g =>
@@ -112,8 +119,13 @@ Definition bstep (K : cfg) (b : bstate) (m : bmsg) : bstate * list reply :=
       | Some st => (b, [RDescr st])
       | None => (mkB (b_tab b) (b_portal b) true, [RErr])
       end
-    | BExec =>
-      match b_portal b with
+    | BDescP p =>
+      match alookup p (b_portal b) with
+      | Some st => (b, [RDescrP st])
+      | None => (mkB (b_tab b) (b_portal b) true, [RErr])                   (* 34000 portal does not exist *)
+      end
+    | BExec p =>
+      match alookup p (b_portal b) with
       | None => (mkB (b_tab b) (b_portal b) true, [RErr])                   (* 34000 portal does not exist *)
       | Some st =>
         match kind K st with
@@ -124,6 +136,7 @@ Definition bstep (K : cfg) (b : bstate) (m : bmsg) : bstate * list reply :=
       end
     | BClose g => (mkB (aremove g (b_tab b)) (b_portal b) false, [R3])
     | BCloseUnnamed => (b, [R3])
+    | BCloseP p => (mkB (b_tab b) (aremove p (b_portal b)) false, [R3])     (* statements untouched *)
     | BSync => (b, [])
     end
   end.
@@ -154,7 +167,7 @@ Fixpoint recv (K : cfg) (l q : list nat) (rs : list reply) : list nat * list nat
 
 (** send [ms ++ [Sync]] to server [sv]'s backend now, read to ReadyForQuery *)
 Definition exchange (K : cfg) (sv : server) (ms : list bmsg) : server * list reply :=
-  let '(b, rs) := brun K (mkB (btab sv) None false) (ms ++ [BSync]) in
+  let '(b, rs) := brun K (mkB (btab sv) [] false) (ms ++ [BSync]) in
   let '(l, q) := recv K (lru sv) (queue sv) rs in
   (mkServer l q (b_tab b) (slog sv ++ ms ++ [BSync]), rs).
 
@@ -216,9 +229,11 @@ Definition sitem (K : cfg) (a : sacc) (it : item) : sacc :=
       let pl := ppromote (a_pl a) (hash K st) in
       let '(sv, _) := register K (a_sv a) g st false in
       mkAcc (a_map a) sv pl (a_fwd a ++ [BParse g st]) (a_syn a)
-  | IBind g st n => let a' := ensure K a n g st in mkAcc (a_map a') (a_sv a') (a_pl a') (a_fwd a' ++ [BBind g]) (a_syn a')
+  | IBind g st n p => let a' := ensure K a n g st in mkAcc (a_map a') (a_sv a') (a_pl a') (a_fwd a' ++ [BBind g p]) (a_syn a')
   | IDesc g st n => let a' := ensure K a n g st in mkAcc (a_map a') (a_sv a') (a_pl a') (a_fwd a' ++ [BDesc g]) (a_syn a')
-  | IExec => mkAcc (a_map a) (a_sv a) (a_pl a) (a_fwd a ++ [BExec]) (a_syn a)
+  | IDescP p => mkAcc (a_map a) (a_sv a) (a_pl a) (a_fwd a ++ [BDescP p]) (a_syn a)
+  | IExec p => mkAcc (a_map a) (a_sv a) (a_pl a) (a_fwd a ++ [BExec p]) (a_syn a)
+  | IClosePortal p => mkAcc (a_map a) (a_sv a) (a_pl a) (a_fwd a ++ [BCloseP p]) (a_syn a)   (* !is_prepared_statement: forwarded *)
   | IClose n =>
     if n =? 0 then mkAcc (a_map a) (a_sv a) (a_pl a) (a_fwd a ++ [BCloseUnnamed]) (a_syn a)   (* anonymous: forwarded *)
     else mkAcc (a_map a) (a_sv a) (a_pl a) (a_fwd a) (a_syn a ++ [R3])     (* the name was forgotten when the Close arrived *)
@@ -228,7 +243,13 @@ Definition sitems (K : cfg) (a : sacc) (its : list item) : sacc := fold_left (si
 
 (** * Operations and observations *)
 Inductive op :=
-| Parse (c n st : nat) | Bind (c n : nat) | Describe (c n : nat) | Execute (c : nat) | Close (c n : nat)
+| Parse (c n st : nat)
+| Bind (c p n : nat)       (* portal p (0 = unnamed), statement n; p may equal n: two name spaces *)
+| Describe (c n : nat)     (* Describe('S', n) *)
+| DescribeP (c p : nat)    (* Describe('P', p) *)
+| Execute (c p : nat)
+| Close (c n : nat)        (* Close('S', n) *)
+| CloseP (c p : nat)       (* Close('P', p) *)
 | Sync (c s : nat)
 | Cleanup (s : nat).      (* checkin_cleanup with needs_cleanup_prepare: DEALLOCATE ALL + cache.clear() *)
 
@@ -244,11 +265,11 @@ Definition step (K : cfg) (w : world) (o : op) : world * list obs :=
     if negb (alive cl) then (w, []) else
     let '(w1, (g, st')) := pool_get_or_insert K w st in
     (set_client w1 c (mkClient (ainsert n (g, st') (cmap cl)) (cbuf cl ++ [IParse g st']) true), [])
-  | Bind c n =>
+  | Bind c p n =>
     let cl := clients w c in
     if negb (alive cl) then (w, []) else
     match alookup n (cmap cl) with
-    | Some (g, st) => (set_client w c (mkClient (cmap cl) (cbuf cl ++ [IBind g st n]) true), [])
+    | Some (g, st) => (set_client w c (mkClient (cmap cl) (cbuf cl ++ [IBind g st n p]) true), [])
     | None => (set_client w c (mkClient (cmap cl) [] false), [Killed c [RErr; RZ]])           (* 1900-1912: error_response = ErrorResponse + ReadyForQuery, then the task ends *)
     end
   | Describe c n =>
@@ -258,9 +279,16 @@ Definition step (K : cfg) (w : world) (o : op) : world * list obs :=
     | Some (g, st) => (set_client w c (mkClient (cmap cl) (cbuf cl ++ [IDesc g st n]) true), [])
     | None => (set_client w c (mkClient (cmap cl) [] false), [Killed c [RErr; RZ]])
     end
-  | Execute c =>
+  | DescribeP c p =>
     let cl := clients w c in
-    if negb (alive cl) then (w, []) else (set_client w c (mkClient (cmap cl) (cbuf cl ++ [IExec]) true), [])
+    if negb (alive cl) then (w, []) else (set_client w c (mkClient (cmap cl) (cbuf cl ++ [IDescP p]) true), [])
+  | Execute c p =>
+    let cl := clients w c in
+    if negb (alive cl) then (w, []) else (set_client w c (mkClient (cmap cl) (cbuf cl ++ [IExec p]) true), [])
+  | CloseP c p =>
+    let cl := clients w c in
+    (* forget_closed_statement tests close.is_prepared_statement(): a portal Close leaves the map alone *)
+    if negb (alive cl) then (w, []) else (set_client w c (mkClient (cmap cl) (cbuf cl ++ [IClosePortal p]) true), [])
   | Close c n =>
     let cl := clients w c in
     if negb (alive cl) then (w, []) else
@@ -296,7 +324,7 @@ Fixpoint run (K : cfg) (w : world) (ops : list op) : world * list obs :=
     statement that was not closed first — see [c08_reparse_without_close_is_lenient]). *)
 Record sclient := mkS { s_tab : list (nat * nat); s_buf : list op; s_alive : bool }.
 
-Record dstate := mkD { d_tab : list (nat * nat); d_portal : option nat; d_skip : bool }.
+Record dstate := mkD { d_tab : list (nat * nat); d_portal : list (nat * nat); d_skip : bool }.
 
 Definition dstep (K : cfg) (d : dstate) (o : op) : dstate * list reply :=
   if d_skip d then (d, []) else
@@ -306,13 +334,16 @@ Definition dstep (K : cfg) (d : dstate) (o : op) : dstate * list reply :=
     | BadParse => (mkD (d_tab d) (d_portal d) true, [RErr])
     | _ => (mkD (ainsert n st (d_tab d)) (d_portal d) false, [R1])
     end
-  | Bind _ n => match alookup n (d_tab d) with
-                | Some st => (mkD (d_tab d) (Some st) false, [R2])
-                | None => (mkD (d_tab d) (d_portal d) true, [RErr]) end
+  | Bind _ p n => match alookup n (d_tab d) with
+                  | Some st => (mkD (d_tab d) (ainsert p st (d_portal d)) false, [R2])
+                  | None => (mkD (d_tab d) (d_portal d) true, [RErr]) end
   | Describe _ n => match alookup n (d_tab d) with
                     | Some st => (d, [RDescr st])
                     | None => (mkD (d_tab d) (d_portal d) true, [RErr]) end
-  | Execute _ => match d_portal d with
+  | DescribeP _ p => match alookup p (d_portal d) with
+                     | Some st => (d, [RDescrP st])
+                     | None => (mkD (d_tab d) (d_portal d) true, [RErr]) end
+  | Execute _ p => match alookup p (d_portal d) with
                  | None => (mkD (d_tab d) (d_portal d) true, [RErr])
                  | Some st => match kind K st with
                               | BadExec => (mkD (d_tab d) (d_portal d) true, [RErr])
@@ -320,6 +351,7 @@ Definition dstep (K : cfg) (d : dstate) (o : op) : dstate * list reply :=
                               | _ => (d, [RRow st]) end
                  end
   | Close _ n => (mkD (aremove n (d_tab d)) (d_portal d) false, [R3])
+  | CloseP _ p => (mkD (d_tab d) (aremove p (d_portal d)) false, [R3])    (* closing a portal never affects statements *)
   | _ => (d, [])
   end.
 
@@ -333,14 +365,16 @@ Definition spec_state := nat -> sclient.
 Definition sclient0 := mkS [] [] true.
 
 Definition op_client (o : op) : option nat :=
-  match o with Parse c _ _ | Bind c _ | Describe c _ | Execute c | Close c _ | Sync c _ => Some c | Cleanup _ => None end.
+  match o with
+  | Parse c _ _ | Bind c _ _ | Describe c _ | DescribeP c _ | Execute c _ | Close c _ | CloseP c _ | Sync c _ => Some c
+  | Cleanup _ => None end.
 
 Definition spec_step (K : cfg) (S : spec_state) (o : op) : spec_state * list obs :=
   match o with
   | Cleanup _ => (S, [])
   | Sync c _ =>
     let sc := S c in
-    let '(d, rs) := drun K (mkD (s_tab sc) None false) (s_buf sc) in
+    let '(d, rs) := drun K (mkD (s_tab sc) [] false) (s_buf sc) in
     (upd S c (mkS (d_tab d) [] true), [Replies c (rs ++ [RZ])])
   | _ => match op_client o with
          | Some c => let sc := S c in (upd S c (mkS (s_tab sc) (s_buf sc ++ [o]) true), [])
@@ -358,7 +392,7 @@ Fixpoint spec_run (K : cfg) (S : spec_state) (ops : list op) : spec_state * list
     don't perfectly send things back in the same order"); the comparison is therefore on the
     data-carrying replies in order (which statement each Execute ran / each Describe described,
     errors) and on the number of each acknowledgement. *)
-Definition is_data (r : reply) : bool := match r with RRow _ | RDescr _ | RErr => true | _ => false end.
+Definition is_data (r : reply) : bool := match r with RRow _ | RDescr _ | RDescrP _ | RErr => true | _ => false end.
 Definition count_r (f : reply -> bool) (rs : list reply) : nat := length (filter f rs).
 Definition norm (rs : list reply) : list reply * (nat * nat * nat * nat) :=
   (filter is_data rs,
@@ -378,29 +412,37 @@ Definition spec_obs (K : cfg) (ops : list op) : list nobs := map norm_obs (snd (
     (it runs the SPECIFICATION, never the model).  A batch = the ops of one client between
     two Syncs.  Within a batch:
       (G1) every statement parsed is [Good] and nothing the batch can execute is not [Good];
-      (G3) Bind/Describe name a statement that exists at that point, Execute follows a Bind,
-           Close names a named statement;
+      (G3) Bind/Describe('S') name a statement that exists at that point; Execute/Describe('P') name
+           a portal that is open at that point (bound in this batch and not closed since; portals do
+           not survive the Sync outside a transaction); a NAMED portal is bound only while it is
+           not open (PostgreSQL: 42P03); Close('S') names a named statement; Close('P') is free;
       (G4) the batch needs at most [cs] server-side statements: every Parse counts, a Bind or
            Describe counts unless its name was already parsed/bound/described in the batch
            and not closed since (one statement may be bound any number of times).
     (The former clause G2 — a name re-Parsed only before other mentions — is gone since the
     repairs 80b6794 and f56a2eb.)
     Each clause is necessary: see the [c08_gap_*] examples in Props.v. *)
-Fixpoint batch_ok (K : cfg) (tab : list (nat * nat)) (known : list nat) (portal : bool) (budget : nat) (os : list op) : bool :=
+Fixpoint batch_ok (K : cfg) (tab : list (nat * nat)) (known : list nat) (ptab : list (nat * nat)) (budget : nat) (os : list op) : bool :=
   match os with
   | [] => true
   | Parse _ n st :: r =>
     match kind K st with Good => true | _ => false end && (0 <? budget) &&
-    batch_ok K (ainsert n st tab) (n :: known) portal (budget - 1) r
-  | Bind _ n :: r =>
-    match alookup n tab with Some _ => true | None => false end && (mem n known || (0 <? budget)) &&
-    batch_ok K tab (n :: known) true (if mem n known then budget else budget - 1) r
+    batch_ok K (ainsert n st tab) (n :: known) ptab (budget - 1) r
+  | Bind _ p n :: r =>
+    match alookup n tab with
+    | Some st =>
+      ((p =? 0) || match alookup p ptab with None => true | Some _ => false end) && (mem n known || (0 <? budget)) &&
+      batch_ok K tab (n :: known) (ainsert p st ptab) (if mem n known then budget else budget - 1) r
+    | None => false
+    end
   | Describe _ n :: r =>
     match alookup n tab with Some _ => true | None => false end && (mem n known || (0 <? budget)) &&
-    batch_ok K tab (n :: known) portal (if mem n known then budget else budget - 1) r
-  | Execute _ :: r => portal && batch_ok K tab known portal budget r
-  | Close _ n :: r => negb (n =? 0) && batch_ok K (aremove n tab) (remove_nat n known) portal budget r
-  | _ :: r => batch_ok K tab known portal budget r
+    batch_ok K tab (n :: known) ptab (if mem n known then budget else budget - 1) r
+  | DescribeP _ p :: r => match alookup p ptab with Some _ => true | None => false end && batch_ok K tab known ptab budget r
+  | Execute _ p :: r => match alookup p ptab with Some _ => true | None => false end && batch_ok K tab known ptab budget r
+  | Close _ n :: r => negb (n =? 0) && batch_ok K (aremove n tab) (remove_nat n known) ptab budget r
+  | CloseP _ p :: r => batch_ok K tab known (aremove p ptab) budget r
+  | _ :: r => batch_ok K tab known ptab budget r
   end.
 
 Fixpoint guard_from (K : cfg) (S : spec_state) (ops : list op) : bool :=
@@ -408,7 +450,7 @@ Fixpoint guard_from (K : cfg) (S : spec_state) (ops : list op) : bool :=
   | [] => true
   | o :: r =>
     (match op_client o with
-     | Some c => batch_ok K (s_tab (S c)) [] false (cs K) (s_buf (S c) ++ [o])   (* every prefix of a batch *)
+     | Some c => batch_ok K (s_tab (S c)) [] [] (cs K) (s_buf (S c) ++ [o])   (* every prefix of a batch *)
      | None => true end) && guard_from K (fst (spec_step K S o)) r
   end.
 Definition guard (K : cfg) (ops : list op) : bool := (0 <? cs K) && guard_from K (fun _ => sclient0) ops.
